@@ -225,6 +225,10 @@ udp_pipe_close(void *arg)
 	udp_ep   *ep = p->ep;
 	nni_aio  *aio;
 
+	if (ep == NULL) {
+		// never started (pipe creation failed part way)
+		return;
+	}
 	nni_mtx_lock(&ep->mtx);
 	udp_remove_pipe(p);
 	udp_send_disc(ep, p, DISC_CLOSED);
@@ -241,6 +245,9 @@ udp_pipe_stop(void *arg)
 	udp_pipe *p  = arg;
 	udp_ep   *ep = p->ep;
 
+	if (ep == NULL) {
+		return;
+	}
 	udp_pipe_close(arg);
 
 	nni_mtx_lock(&ep->mtx);
@@ -1225,7 +1232,7 @@ udp_ep_init(
 	ep->tx_ring.descs =
 	    NNI_ALLOC_STRUCTS(ep->tx_ring.descs, NNG_UDP_TXQUEUE_LEN);
 	if (ep->tx_ring.descs == NULL) {
-		NNI_FREE_STRUCT(ep);
+		// (the caller finalizes the endpoint when init fails)
 		return (NNG_ENOMEM);
 	}
 	ep->tx_ring.size = NNG_UDP_TXQUEUE_LEN;
@@ -1250,8 +1257,8 @@ udp_ep_init(
 	ep->rcvmax           = NNG_UDP_RECVMAX;
 	ep->copymax          = NNG_UDP_COPYMAX;
 	ep->max_peers        = NNG_UDP_MAX_PEERS;
-	if ((rv = nni_msg_alloc(&ep->rx_payload, ep->rcvmax) != 0)) {
-		NNI_FREE_STRUCTS(ep->tx_ring.descs, NNG_UDP_TXQUEUE_LEN);
+	if ((rv = nni_msg_alloc(&ep->rx_payload, ep->rcvmax)) != 0) {
+		// (udp_ep_fini releases the ring)
 		return (rv);
 	}
 
